@@ -21,7 +21,16 @@
 (*   first  : "srtps" (the datagram is a valid SecureRTPSPrefix-protected  *)
 (*            message of the peer), "plain", "srtps_bad" (protected message*)
 (*            with a corrupted MAC), "shift" (SRTPS prefix not first)      *)
-(*   src    : "peer" | "foreign"  (GUID prefix in the RTPS header)         *)
+(*   src    : "peer" | "peer2" | "foreign"  (GUID prefix in the RTPS       *)
+(*            header): the authenticated peer whose keys the receiver      *)
+(*            knows, a second remote participant (no keys), nobody known   *)
+(*   xm     : matching configuration of the run, a set of pairs <<d, w>>:  *)
+(*            local reader d is ALSO matched to a writer of the second     *)
+(*            remote participant ("peer2") that carries the EntityId the   *)
+(*            peer uses for its writer of topic w.  EntityIds are unique   *)
+(*            per participant only, so a writer submessage that names no   *)
+(*            reader (readerId UNKNOWN) has SEVERAL candidate readers, on  *)
+(*            topics with different protection requirements.               *)
 (*   wraps  : sequence of [id,kind,dst,wr,pay,key]: submessages that were  *)
 (*            protected by the peer with the endpoint keys of topic `key`  *)
 (*            (+ opaque: the body is a SecureBody, FALSE for SIGN kinds)   *)
@@ -49,6 +58,11 @@ WriterKinds == {"DATA", "FRAG", "HB", "GAP"}
 IsData(k)   == k \in {"DATA", "FRAG"}
 
 ToSet(s) == {s[i] : i \in DOMAIN s}
+
+\* Candidate readers of a writer submessage without reader id whose writerId is the EntityId of the
+\* peer's writer of topic w (Reader::contains_writer compares the EntityId only; the stateless reader
+\* holds no proxies; spdp / stateless readers take their own builtin writer id unconditionally)
+Cand(m, w) == ({w} \cap Dests) \cup {d \in Dests \ {"stateless"} : <<d, w>> \in m.xm}
 
 (***************************************************************************)
 (* 2. The property                                                         *)
@@ -83,20 +97,22 @@ Allowed(m, id, d) == RtpsOk(m, d) /\ SubOk(m, id, d) /\ PayOk(m, id, d)
 (***************************************************************************)
 NoEl == [t |-> "none", id |-> 0, kind |-> "na", dst |-> "na", wr |-> "na", pay |-> "na", w |-> 0, who |-> "na"]
 \* sec: "None" | "Prefix" | "Body"; pw: wrap of the stored prefix; pb: the stored submessage
-St0(m) == [sec |-> "None", pw |-> 0, pb |-> NoEl, dstOK |-> TRUE, srcPeer |-> (m.src = "peer")]
+St0(m) == [sec |-> "None", pw |-> 0, pb |-> NoEl, dstOK |-> TRUE, src |-> m.src]
+SrcPeer(st) == st.src = "peer"                \* the source whose key material the plugins hold
 Special(m) == m.rtps /\ m.first # "srtps"     \* must_be_rtps_protection_special_case
 
 \* handle_writer_submessage / handle_reader_submessage: what passes to endpoint d
 Handle(m, st, d, it) ==
   IF ~st.dstOK \/ d \notin Dests THEN {}
   ELSE IF Special(m) /\ ~Exempt(d) THEN {}
-  ELSE IF IsData(it.kind) /\ PayProt(d) /\ ~(it.pay = "enc" /\ it.wr = d /\ st.srcPeer) THEN {}   \* decode_serialized_payload
+  ELSE IF IsData(it.kind) /\ PayProt(d) /\ ~(it.pay = "enc" /\ it.wr = d /\ SrcPeer(st)) THEN {}   \* decode_serialized_payload
   ELSE {<<it.id, d>>}
 
 \* a plain entity submessage in state None (handle_submessage)
 PlainEntity(m, st, it) ==
   IF it.kind \in WriterKinds
-  THEN LET targets == IF it.dst = "UNKNOWN" THEN {it.wr} \cap Dests ELSE {it.dst}
+  THEN LET targets == IF it.dst = "UNKNOWN" THEN Cand(m, it.wr) ELSE {it.dst}
+       \* the protection requirement is the one of EACH candidate reader
        IN UNION {IF ~SubProt(d) THEN Handle(m, st, d, it) ELSE {} : d \in targets}
   ELSE IF ~SubProt(it.dst) THEN Handle(m, st, it.dst, it) ELSE {}
 
@@ -104,7 +120,7 @@ PlainEntity(m, st, it) ==
 SecureEntity(m, st, it) ==
   IF it.kind \in WriterKinds
   THEN IF it.dst = "UNKNOWN"
-       THEN (IF it.wr = it.key THEN Handle(m, st, it.key, it) ELSE {})
+       THEN (IF it.key \in Cand(m, it.wr) THEN Handle(m, st, it.key, it) ELSE {})   \* candidate /\ crypto handle
        ELSE (IF it.dst = it.key THEN Handle(m, st, it.key, it) ELSE {})   \* confirm_local_endpoint_guid
   ELSE IF it.dst = it.key THEN Handle(m, st, it.key, it) ELSE {}
 
@@ -117,14 +133,14 @@ RecvStep(m, st, e) ==
          ELSE IF Visible(m, e) THEN [st |-> st, del |-> PlainEntity(m, st, m.wraps[e.w])]
          ELSE IF e.t = "P" THEN [st |-> IF st.dstOK THEN [st EXCEPT !.sec = "Prefix", !.pw = e.w] ELSE st, del |-> {}]
          ELSE IF e.t = "idst" THEN [st |-> [st EXCEPT !.dstOK = (e.who \in {"self", "unknown"})], del |-> {}]
-         ELSE IF e.t = "isrc" THEN [st |-> [st EXCEPT !.srcPeer = (e.who = "peer")], del |-> {}]
+         ELSE IF e.t = "isrc" THEN [st |-> [st EXCEPT !.src = e.who], del |-> {}]
          ELSE [st |-> st, del |-> {}]
     [] st.sec = "Prefix" -> [st |-> [st EXCEPT !.sec = "Body", !.pb = e], del |-> {}]
     [] OTHER ->
          LET ok == /\ e.t = "F" /\ e.w = st.pw
                    /\ st.pb.t = "B" /\ st.pb.w = st.pw
                    /\ st.pw \in DOMAIN m.wraps
-                   /\ st.srcPeer                      \* keys are looked up by source prefix
+                   /\ SrcPeer(st)                     \* keys are looked up by source prefix
          IN [st  |-> [st EXCEPT !.sec = "None", !.pw = 0, !.pb = NoEl],
              del |-> IF ok THEN SecureEntity(m, st, m.wraps[st.pw]) ELSE {}]
 
@@ -134,23 +150,40 @@ StBefore(m, i) == IF i = 1 THEN St0(m) ELSE RecvStep(m, StBefore(m, i - 1), m.el
 
 (***************************************************************************)
 (* deliveries the property demands ("traffic for endpoints whose topic     *)
-(* needs no protection keeps flowing"): a plain submessage from the matched*)
-(* peer endpoint, addressed to this participant, to an endpoint that needs *)
-(* none of the protections (or whose domain-level requirement is met /     *)
-(* exempt), arriving while no secure-submessage sequence is open.          *)
+(* needs no protection keeps flowing"): a plain submessage from a matched  *)
+(* writer, addressed to this participant, to an endpoint that needs none   *)
+(* of the protections (or whose domain-level requirement is met / exempt), *)
+(* arriving while no secure-submessage sequence is open.                   *)
+(*  - from the peer: its endpoint of topic d is matched to our endpoint of *)
+(*    topic d (with or without reader id), whatever OTHER readers are      *)
+(*    candidates for the same writer EntityId;                             *)
+(*  - from the second participant: its writer with the EntityId of topic w *)
+(*    is matched to reader d for <<d, w>> in m.xm; demanded only for       *)
+(*    readers that need no protection at all (no key material exists for   *)
+(*    that participant).                                                   *)
 (***************************************************************************)
+FlowDests(m, e, st) ==
+  IF st.src = "peer"
+  THEN LET d == IF e.dst = "UNKNOWN" THEN e.wr ELSE e.dst IN
+       IF /\ d \in Dests /\ e.wr = d
+          /\ ~SubProt(d)
+          /\ (IsData(e.kind) => ~PayProt(d))
+          /\ (e.kind \in {"HB", "GAP"} => d # "stateless")
+          /\ (e.kind = "ACK" => e.dst # "UNKNOWN")
+       THEN {d} ELSE {}
+  ELSE IF st.src = "peer2" /\ e.kind \in WriterKinds
+  THEN {d \in Dests \ {"stateless"} : /\ <<d, e.wr>> \in m.xm
+                                       /\ e.dst \in {"UNKNOWN", d}
+                                       /\ ~SubProt(d) /\ ~PayProt(d)}
+  ELSE {}
+
 MustFlow(m) ==
   IF m.first \notin {"plain", "srtps"} THEN {}
-  ELSE {<<m.els[i].id, (IF m.els[i].dst = "UNKNOWN" THEN m.els[i].wr ELSE m.els[i].dst)>> :
+  ELSE UNION {{<<m.els[i].id, d>> : d \in {x \in FlowDests(m, m.els[i], StBefore(m, i)) : RtpsOk(m, x)}} :
           i \in {j \in DOMAIN m.els :
                    LET e  == m.els[j]
-                       d  == IF e.dst = "UNKNOWN" THEN e.wr ELSE e.dst
                        st == StBefore(m, j)
                    IN /\ e.t = "ent"
-                      /\ d \in Dests /\ e.wr = d
-                      /\ ~SubProt(d) /\ RtpsOk(m, d)
-                      /\ st.sec = "None" /\ st.dstOK /\ st.srcPeer
-                      /\ (IsData(e.kind) => (~PayProt(d) /\ e.pay = "plain"))
-                      /\ (e.kind \in {"HB", "GAP"} => d # "stateless")
-                      /\ (e.kind = "ACK" => e.dst # "UNKNOWN")}}
+                      /\ st.sec = "None" /\ st.dstOK
+                      /\ (IsData(e.kind) => e.pay = "plain")}}
 =============================================================================
